@@ -169,6 +169,32 @@ def pcn_target_forms(c, iface, form):
         c.holds('likelihood_attribute_is_the_targets_likelihood', s.likelihood is like)
 
 
+def pcn_scale_history(c, how):
+    """history: the scale of an initialised experimental PCN is changed afterwards - by assigning the public attribute, or by loading a state (checkpoint /
+    set_state) that carries another scale: the next proposal is the prior-reversible one for the CURRENT scale,
+    x' = mean + sqrt(1 - scale^2) (x - mean) + scale * (xi - mean)  (nothing derived from the old scale survives)"""
+    import cuqi
+    from cuqi.distribution import Gaussian, Posterior
+    from cuqi.likelihood import UserDefinedLikelihood
+    n = 2
+    m = c.vec('m', n); sd = c.vec('sd', n, pos=True); x0 = c.vec('x0', n); z = c.vec('z', n)
+    sc2 = c.real('scale2', lo=0.05, hi=0.95)
+    rec = []
+    prior = Gaussian(m, sd ** 2, name='x')
+    like = UserDefinedLikelihood(dim=n, logpdf_func=lambda v: (rec.append(np.asarray(v)), 0.0 * np.asarray(v).reshape(-1)[0])[1])
+    s = cuqi.experimental.mcmc.PCN(Posterior(like, prior), scale=0.3, initial_point=x0); s.initialize()
+    if how == 'attribute': s.scale = sc2
+    else:
+        st = s.get_state(); st['state']['scale'] = sc2; s.set_state(st)
+    if c.sym: shims.PRESET['normal'].append(z.reshape(n, 1)); shims.PRESET['uniform'].append(core.SReal(z3.RealVal('1/2')))
+    else: c._numq['normal'].append(z.reshape(n, 1)); c._numq['uniform'].append(0.5); c._patch_random()
+    rec.clear()
+    s.step()
+    c.holds('the_kernel_evaluated_the_likelihood_at_one_proposal', len(rec) == 1, note=str(len(rec)))
+    xi = m + sd * z
+    c.eq('proposal_uses_the_current_scale', np.asarray(rec[0]).reshape(-1), m + c.sqrt(1 - sc2 * sc2) * (x0 - m) + sc2 * (xi - m))
+
+
 def fresh_sampler_invariant(c, name):
     """history 'fresh': a sampler built by its PUBLIC constructor with an explicit starting point x0 (any point, not the default) and initialised
     (also re-initialised) satisfies the invariant the kernel contracts start from - the state is x0 and every cached evaluation is the target's
@@ -489,6 +515,9 @@ def jobs(tier):
     for iface, form in (('exp', 'posterior'), ('leg', 'posterior'), ('leg', 'tuple')):
         J.append(Job(f'{"experimental" if iface == "exp" else "legacy"}.pCN:public_constructor:target_form={form}', lambda c, i=iface, f=form: pcn_target_forms(c, i, f), 'Pbox',
                      [(EXP if iface == 'exp' else LEG) + '._pcn:' + ('PCN.validate_target' if iface == 'exp' else 'pCN.target')], nnum=3))
+    for how in ('attribute', 'set_state'):
+        J.append(Job(f'experimental.PCN:history:scale_changed_after_initialisation_by_{how}', lambda c, h=how: pcn_scale_history(c, h), 'Pbox',
+                     [EXP + '._pcn:PCN.step', EXP + '._pcn:PCN._initialize', EXP + '._sampler:Sampler.set_state'], nnum=6))
     for name in ('MH', 'CWMH', 'PCN', 'MALA'):
         J.append(Job(f'experimental.{name}:fresh_sampler_invariant:explicit_starting_point', lambda c, nm=name: fresh_sampler_invariant(c, nm), 'Pbox',
                      [EXP + '._sampler:ProposalBasedSampler.initialize' if name in ('MH', 'CWMH') else EXP + '._sampler:Sampler.initialize', EXP + '._sampler:Sampler.reinitialize',
